@@ -61,6 +61,8 @@ Definition bb_repeat (b : bbuf) : bbuf :=
 (* abstraction *)
 Definition bb_filled (b : bbuf) : list N := firstn (N.to_nat (bb_used b)) (bb_mem b).
 Definition bb_unread (b : bbuf) : list N := skipn (N.to_nat (bb_offset b)) (bb_filled b).
+(* the memory from the read position to the end of the buffer *)
+Definition bb_tail (b : bbuf) : list N := skipn (N.to_nat (bb_offset b)) (firstn (N.to_nat (bb_size b)) (bb_mem b)).
 Definition bb_inv (b : bbuf) : Prop :=
   bb_offset b <= bb_used b /\ bb_used b <= bb_size b /\ bb_size b <= N.of_nat (length (bb_mem b)).
 
